@@ -92,6 +92,17 @@ async fn register_many(addr: SocketAddr, set: &CertSet, topic: &TopicName, n: us
     Ok(())
 }
 
+/// The peers of the stalled topic give up on it: letting go of their streams (some of which hold
+/// data that can never be flushed) must not take for ever - a client stuck there never gets to
+/// its other topics. Done on a blocking thread so that a synchronous wait shows as a time-out.
+async fn let_go(held: Held, class: &str) -> Result<(), Fail> {
+    let h = tokio::task::spawn_blocking(move || drop(held));
+    match tokio::time::timeout(Duration::from_secs(20), h).await {
+        Ok(_) => Ok(()),
+        Err(_) => Err(fail("client-stuck-letting-go", class, "a client dropped its streams on the stalled topic (a publisher with unflushable data among them); the drop had not returned after 20 s, so the client never gets to use another topic".into())),
+    }
+}
+
 async fn cell(set: Arc<CertSet>, n: usize, order: String, pattern: String, cellid: u64) -> Result<String, Fail> {
     let class = if n > 100 { "queue-overfull" } else { "queue-not-full" };
     let setup = |what: &str, e: String| fail("setup", what, format!("{what}: {e}"));
@@ -139,7 +150,7 @@ async fn cell(set: Arc<CertSet>, n: usize, order: String, pattern: String, celli
     if !stalled {
         return Err(setup("flood", format!("the topic never stalled after {sent} bytes")));
     }
-    held._streams.push(pub_stream);
+    let stalled_pub = pub_stream; // let go of on its own at the end, while the topic is still stalled
     if order == "stall-first" {
         register_many(addr, &set, &ta, n, &mut held, pattern == "reqrep").await.map_err(|e| fail("registration-on-stalled-topic-unanswered", class, e))?;
     }
@@ -155,7 +166,13 @@ async fn cell(set: Arc<CertSet>, n: usize, order: String, pattern: String, celli
     // the other topic must still work
     match round_trip(addr, &set, &b, Duration::from_secs(20)).await {
         Ok(d) => {
-            drop(held);
+            // the flooding client gives up: its publisher holds a frame that cannot be flushed while
+            // the topic is stalled, and dropping it must not wait for that
+            let h = tokio::task::spawn_blocking(move || drop(stalled_pub));
+            if tokio::time::timeout(Duration::from_secs(15), h).await.is_err() {
+                return Err(fail("client-stuck-letting-go", class, format!("topic {a} is stalled; the client that flooded it dropped its publisher stream (which holds a frame it could not flush) and the drop had not returned after 15 s: that client never gets to use another topic")));
+            }
+            let_go(held, class).await?;
             drop(stall_conn);
             Ok(format!("other-topic-served ({} ms bucket)", if d.as_millis() < 1000 { "<1000" } else { ">=1000" }))
         }
@@ -245,7 +262,7 @@ async fn parked_on_victim_cell(set: Arc<CertSet>, extra: usize, watch_s: u64, ce
         }
         tokio::time::sleep(Duration::from_millis(400)).await;
     }
-    drop(held);
+    let_go(held, &class).await?;
     Ok(format!("other-topic-served for {watch_s} s"))
 }
 
@@ -304,7 +321,7 @@ async fn many_connections_cell(set: Arc<CertSet>, n: usize, cellid: u64) -> Resu
         }
     }
     let r = round_trip(addr, &set, &b, Duration::from_secs(20)).await;
-    drop(held);
+    let_go(held, &class).await?;
     match r {
         Ok(_) if turned_away == 0 => Ok("other-topic-served".into()),
         Ok(_) => Err(fail("peers-turned-away", &class, format!("{turned_away} of {n} peers that wanted to join the stalled topic over a connection of their own could not even connect"))),
